@@ -372,7 +372,7 @@ func (fc *FnCtx) checkAnchors(con *Contract) {
 	}
 	fc.curFn = fc.fn
 	valid := map[string]bool{"exit": true}
-	nmu := 0
+	nmu, nsend, nsel := 0, 0, 0
 	for _, b := range fc.fn.Blocks {
 		for _, in := range b.Instrs {
 			switch x := in.(type) {
@@ -381,6 +381,12 @@ func (fc *FnCtx) checkAnchors(con *Contract) {
 			case *ssa.MapUpdate:
 				valid[fmt.Sprintf("mapupdate#%d", nmu)] = true
 				nmu++
+			case *ssa.Send:
+				valid[fmt.Sprintf("send#%d", nsend)] = true
+				nsend++
+			case *ssa.Select:
+				valid[fmt.Sprintf("select#%d", nsel)] = true
+				nsel++
 			case *ssa.Alloc:
 				valid["assign "+x.Comment] = true
 			}
